@@ -10,6 +10,9 @@
 (*    "quick"    all trees of height <= 1 over FullAtoms and all trees of  *)
 (*               height <= 2 over six core atoms                           *)
 (*    "thorough" the same with seven core atoms                            *)
+(*    "names"    all trees of height <= 1 over atoms whose value is a host *)
+(*               name with one / two IPv4 / an IPv4 and an IPv6 address,   *)
+(*               and four core atoms (run with the resolver table Names)   *)
 (***************************************************************************)
 EXTENDS CondDomain, Json
 CONSTANT GenSet
@@ -19,6 +22,7 @@ GenTrees == CASE GenSet = "quick"    -> Grow(FullAtoms) \cup H2(Core6)
               [] GenSet = "thorough" -> Grow(FullAtoms) \cup H2(Core7)
               [] GenSet = "h1"       -> Grow(FullAtoms)
               [] GenSet = "tiny"     -> Grow(Core4)
+              [] GenSet = "names"    -> Grow(NameAtoms \cup Core4)
 
 CaseH(x, hs) == [tree |-> x,
                  exp |-> Selection(x),
@@ -35,5 +39,5 @@ GenSpec == GenInit /\ [][GenNext]_<<c, done>>
 
 \* the flow universe itself, printed once so that the harness builds its keys from the
 \* specification's flows (no second copy of the universe in Go)
-ASSUME PrintT(<<"INFO", ToJson([flows |-> FlowSeq])>>)
+ASSUME PrintT(<<"INFO", ToJson([flows |-> FlowSeq, names |-> [n \in DOMAIN Names |-> Names[n]]])>>)
 =============================================================================
